@@ -79,8 +79,13 @@ func iterateShared(fn subscription.IterateFn, options subscription.IterationOpti
 		if node == nil {
 			return true
 		}
+		// The Server MUST NOT match Topic Filters starting with a wildcard character (# or +) with Topic Names beginning with a $ character [MQTT-4.7.2-1]
+		sys := isSystemTopic(options.TopicName)
 		if options.ClientID != "" {
 			for _, v := range node[options.ClientID] {
+				if sys && startsWithWildcard(v.TopicFilter) {
+					continue
+				}
 				if !fn(options.ClientID, v) {
 					return false
 				}
@@ -88,6 +93,9 @@ func iterateShared(fn subscription.IterateFn, options subscription.IterationOpti
 		} else {
 			for clientID, subs := range node {
 				for _, v := range subs {
+					if sys && startsWithWildcard(v.TopicFilter) {
+						continue
+					}
 					if !fn(clientID, v) {
 						return false
 					}
@@ -110,6 +118,10 @@ func iterateShared(fn subscription.IterateFn, options subscription.IterationOpti
 	}
 	// 遍历
 	return trie.preOrderTraverse(fn)
+}
+
+func startsWithWildcard(topicFilter string) bool {
+	return len(topicFilter) >= 1 && (topicFilter[0] == '+' || topicFilter[0] == '#')
 }
 
 // sharedIndexKey returns the key of sharedIndex[clientID]: shareName/topicFilter.
